@@ -25,6 +25,8 @@ def classify(before_src: str, op: dict, diffs: list[str]) -> str:
     d0 = diffs[0] if diffs else ''
     if edits.eof_trailing_space_case(before_src, op):
         return 'stmt-put-at-eof-without-newline-with-trailing-space-trivia'
+    if d0.startswith('source does not parse') and edits.continuation_semicolon_case(before_src, op):
+        return 'stmt-put-before-continuation-semicolon-with-trailing-trivia'
     if 'positional argument follows keyword argument' in d0:
         # Call.args / ClassDef.bases real-field put of a positional element behind a keyword
         holder = tgt
